@@ -577,9 +577,13 @@ def rule_wellformed(ctx, res):
             no_overlap = 'j<pos' in conj
         upd = [s for s in o.body if isinstance(s, ast.If)]
         if len(upd) == 1:
-            joint = ast.unparse(upd[0].test).replace(' ', '') == \
-                'j-i>best_len' and sorted(
-                    ast.unparse(s).replace(' ', '') for s in upd[0].body) == \
+            # which candidate wins (first / last / longest) only affects the
+            # compression ratio: any effect-free test will do, as long as
+            # length and start are taken from the same (i, j)
+            pure_test = not any(isinstance(x, (ast.Call, ast.NamedExpr))
+                                for x in ast.walk(upd[0].test))
+            joint = pure_test and not upd[0].orelse and sorted(
+                ast.unparse(s).replace(' ', '') for s in upd[0].body) == \
                 ['best_i=i', 'best_len=j-i']
     res.check(ok_outer and ok_inner and joint, 'R-C05-wellformed', q,
               'match loop invariant 0 <= j - i <= max_len; best_len and '
